@@ -61,6 +61,12 @@ func (r *round2) StoreBroadcastMessage(msg round.Message) error {
 		return fmt.Errorf("commitment: %w", err)
 	}
 
+	// a polynomial of another degree would change the threshold of the sharing, and the
+	// polynomials could not be summed in round 3
+	if body.Phi_i.Degree() != r.threshold {
+		return fmt.Errorf("party %s sent a polynomial of degree %d, expected %d", from, body.Phi_i.Degree(), r.threshold)
+	}
+
 	// These steps come from Figure 1, Round 1 of the Frost paper
 
 	// 5. "Upon receiving ϕₗ, σₗ from participants 1 ⩽ l ⩽ n, participant
